@@ -17,7 +17,7 @@
     ALL models, environments and states; numbers are exact rationals. *)
 From Coq Require Import QArith Qabs.
 From MxlBase Require Import ListX.
-From Symbolic Require Import Expr ExprProofs SymModel FnTab GenSymFacts SymProofs ClosureProofs Witness.
+From Symbolic Require Import Expr ExprProofs SymModel FnTab GenSymFacts SymProofs ClosureProofs Witness SurrProofs.
 Open Scope Q_scope.
 
 Theorem C12_facts_pinned :
@@ -91,7 +91,11 @@ Print Assumptions C12_jacobian_layout.
 
 (** (2') Every entry of the symbolic Jacobian IS the partial derivative of the numeric right-hand
     side: moving the j-th variable by any rational h, |h| <= 1, and re-resolving the model changes
-    the i-th numeric derivative by h * J[i][j] up to B * h^2, one B for all such h. *)
+    the i-th numeric derivative by h * J[i][j] up to B * h^2, one B for all such h.
+    Holds for models WITH surrogates too (whatever converts does not depend on a surrogate output,
+    by C12_surrogate_output_refused).  The symbol table is a regenerated fact since the model knows
+    surrogates: the statement is about the shipped table (hypothesis on F, met by gen_sym_facts);
+    for the merged table it is false -- C12_surrogate_merged_table_refuted. *)
 Theorem C12_jacobian_is_derivative :
   forall (fsym : fnid -> list expr -> option expr) (fsem : fnid -> list Q -> Q) (sdiff : name -> expr -> expr),
     (forall f es e env, fsym f es = Some e -> eval env e == fsem f (map (eval env) es)) ->
@@ -99,6 +103,7 @@ Theorem C12_jacobian_is_derivative :
     (forall f es e, fsym f es = Some e -> forall n, In n (syms e) -> exists e', In e' es /\ In n (syms e')) ->
     (forall x e env, eval env (sdiff x e) == eval env (D x e)) ->
     forall (F : sym_facts) (m : smodel) (eqs : list expr) (env : name -> Q),
+      sf_symtab F = SymVarsParsData ->       (* the shipped symbol table: variables | parameters | data *)
       to_symbolic fsym F m = SymOk eqs -> Resolved fsem m env ->
       forall i j vi xj, nth_error (m_vars m) i = Some vi -> nth_error (m_vars m) j = Some xj ->
       exists row d, nth_error (jacobian sdiff eqs (m_vars m)) i = Some row /\ nth_error row j = Some d /\
@@ -155,7 +160,7 @@ Theorem C12_simulator_jacobian :
       length x = length (m_vars m0) ->
       call_closure gen_sym_facts m (init_jac fsym sdiff gen_sym_facts m0) t x =
       CMat (map (map (eval (bound_env t (m_vars m0) x (m_pars m)))) (jacobian sdiff eqs (m_vars m0))).
-Proof. exact (fun fsym sdiff H1 H2 m0 m eqs t x => simulator_jacobian fsym sdiff H1 H2 gen_sym_facts m0 m eqs t x eq_refl). Qed.
+Proof. exact (fun fsym sdiff H1 H2 m0 m eqs t x => simulator_jacobian fsym sdiff H1 H2 gen_sym_facts m0 m eqs t x eq_refl eq_refl). Qed.
 Print Assumptions C12_simulator_jacobian.
 
 (** (3'') the integrator calls jac_fn(t, x) with ITS time; after a variable override it restarts at
@@ -180,8 +185,12 @@ Print Assumptions C12_closure_binding_old_refuted.
 
 (** (4) A convertible model converts whatever the declaration order of its derived values (and
     reactions): [Convertible] reads the declarations through membership only, and [OrderOk] is
-    what property C02 proves of cache.order for every declaration order.  Current fact
-    OrdDependency. *)
+    what property C02 proves of cache.order for every declaration order.  Current facts
+    OrdDependency / SymVarsParsData / DynCoefTimesRate.  Since fix 868c092 repaired the dynamic statement
+    this INCLUDES models with state-dependent computed coefficients (the earlier statement demanded
+    that cache.dyn_stoich_by_cpds be empty; that hypothesis is replaced by: the coefficient's
+    reaction is a reaction, its arguments are convertible names, its function translates; and a
+    variable may be covered by a dynamic row only -- the earlier statement is the special case). *)
 Theorem C12_any_declaration_order :
   forall (fsym : fnid -> list expr -> option expr) (m : smodel),
     (* Convertible, written out *)
@@ -189,8 +198,12 @@ Theorem C12_any_declaration_order :
     (forall k c, In (k, c) (m_rxn m) -> forall a, In a (c_args c) -> In a (base_names m) \/ In a (map fst (m_der m))) ->
     (forall k c, In (k, c) (m_der m ++ m_rxn m) -> forall es, length es = length (c_args c) -> fsym (c_fn c) es <> None) ->
     (forall cpd row r n, In (cpd, row) (m_stoich m) -> In (r, n) row -> In r (map fst (m_rxn m))) ->
-    (forall cpd row, In (cpd, row) (m_dyn m) -> row = []) ->     (* no state-dependent coefficient: those are covered by (1) only *)
-    (forall v, In v (m_vars m) -> exists row, In (v, row) (m_stoich m) /\ row <> []) ->
+    (forall cpd row r c, In (cpd, row) (m_dyn m) -> In (r, c) row ->
+       In r (map fst (m_rxn m)) /\
+       (forall a, In a (c_args c) -> In a (base_names m) \/ In a (map fst (m_der m))) /\
+       (forall es, length es = length (c_args c) -> fsym (c_fn c) es <> None)) ->
+    (forall v, In v (m_vars m) ->
+       (exists row, In (v, row) (m_stoich m) /\ row <> []) \/ (exists row, In (v, row) (m_dyn m) /\ row <> [])) ->
     (* OrderOk, written out *)
     (forall k, In k (map fst (m_der m)) -> In k (m_order m)) ->
     (forall pre k post c, m_order m = pre ++ k :: post -> lookup k (m_der m) = Some c ->
@@ -198,7 +211,7 @@ Theorem C12_any_declaration_order :
     exists eqs, to_symbolic fsym gen_sym_facts m = SymOk eqs.
 Proof.
   exact (fun fsym m H1 H2 H3 H4 H5 H6 O1 O2 =>
-    convertible_converts fsym m (Build_Convertible fsym m H1 H2 H3 H4 H5 H6) (conj O1 O2) gen_sym_facts eq_refl eq_refl).
+    convertible_converts fsym m (Build_Convertible fsym m H1 H2 H3 H4 H5 H6) (conj O1 O2) gen_sym_facts eq_refl eq_refl eq_refl).
 Qed.
 Print Assumptions C12_any_declaration_order.
 
@@ -223,6 +236,70 @@ Theorem C12_dynamic_coefficient_old_refused :
 Proof. exact dyn_raises_old. Qed.
 Print Assumptions C12_dynamic_coefficient_old_refused.
 
+(** (5') Models WITH surrogates.  The translation symbol table is variables | parameters | data: a
+    surrogate output is not a key.  A model in which an ordinary reaction, a converted derived value
+    or a state-dependent coefficient takes a surrogate OUTPUT as argument, or whose coefficient
+    tables name a surrogate FLUX, is refused (an exception, never equations), and the simulator is
+    left without Jacobian.  [SurrNamesFresh]: names are unique across a model (Model._insert_id). *)
+Theorem C12_surrogate_output_refused :
+  forall (fsym : fnid -> list expr -> option expr) (sdiff : name -> expr -> expr) (m : smodel),
+    (* SurrNamesFresh, written out *)
+    (forall o, In o (surr_outputs m) ->
+       ~ In o (base_names m) /\ ~ In o (map fst (m_der m)) /\ ~ In o (map fst (m_rxn m))) ->
+    (* UsesSurrogate, written out *)
+    ((exists k c a, In (k, c) (m_rxn m) /\ In a (c_args c) /\ In a (surr_outputs m)) \/
+     (exists k c a, In k (m_order m) /\ lookup k (m_der m) = Some c /\ In a (c_args c) /\ In a (surr_outputs m)) \/
+     (exists cpd row r c a, In (cpd, row) (m_dyn m) /\ In (r, c) row /\ In a (c_args c) /\ In a (surr_outputs m)) \/
+     (exists cpd row r n, In (cpd, row) (m_stoich m) /\ In (r, n) row /\ In r (surr_outputs m))) ->
+    exists e, to_symbolic fsym gen_sym_facts m = SymErr e /\
+              init_jac fsym sdiff gen_sym_facts m = JacNone e /\
+              forall m' t x, call_closure gen_sym_facts m' (init_jac fsym sdiff gen_sym_facts m) t x = CNoJac.
+Proof. exact (fun fsym sdiff m H1 H2 => surrogate_output_refused fsym sdiff gen_sym_facts m eq_refl eq_refl H1 H2). Qed.
+Print Assumptions C12_surrogate_output_refused.
+
+(** ... more generally, for every symbol table and every value of the other facts: naming anything
+    that is neither a key of the table nor a derived value (time, an assignment-defined parameter,
+    a rate, a surrogate output), or a flux that is no reaction, is refused. *)
+Theorem C12_unknown_name_refused :
+  forall (fsym : fnid -> list expr -> option expr) (F : sym_facts) (m : smodel) (names : list name),
+    table_names F m = Some names ->
+    ((exists k c a, In (k, c) (m_rxn m) /\ In a (c_args c) /\ ~ In a names /\ ~ In a (map fst (m_der m))) \/
+     (sf_order F = OrdDependency /\
+      exists k c a, In k (m_order m) /\ lookup k (m_der m) = Some c /\ In a (c_args c) /\ ~ In a names /\ ~ In a (map fst (m_der m))) \/
+     (exists cpd row r c a, In (cpd, row) (m_dyn m) /\ In (r, c) row /\ In a (c_args c) /\ ~ In a names /\ ~ In a (map fst (m_der m))) \/
+     (exists cpd row r n, In (cpd, row) (m_stoich m) /\ In (r, n) row /\ ~ In r (map fst (m_rxn m)))) ->
+    forall eqs, to_symbolic fsym F m <> SymOk eqs.
+Proof. exact unknown_name_refused. Qed.
+Print Assumptions C12_unknown_name_refused.
+
+(** regression theorem for the MERGED table (variables | parameters | data | surrogates, fact
+    SymVarsParsDataSurr = seeded change C12-3): w4 -- a surrogate output (6 = twice(x)) feeding the
+    ordinary reaction 7 = y * out -- is refused under the current facts, but CONVERTS under the
+    merged table to equations that mention the output's symbol; the Jacobian entry d(dy/dt)/dx it
+    yields evaluates to 2 although along x = 1 + h (every component and the surrogate output
+    resolved) the numeric dy/dt moves by exactly -2*h -- no bound B*h^2 exists --, and the Jacobian
+    function's matrix has an entry that is not a number (the unbound symbol; SciPy: TypeError). *)
+Theorem C12_surrogate_merged_table_refuted :
+  sf_symtab facts_merged_surr = SymVarsParsDataSurr /\
+  (forall o, In o (surr_outputs w4) ->
+     ~ In o (base_names w4) /\ ~ In o (map fst (m_der w4)) /\ ~ In o (map fst (m_rxn w4))) /\
+  (exists k c a, In (k, c) (m_rxn w4) /\ In a (c_args c) /\ In a (surr_outputs w4)) /\
+  to_symbolic fsym_lib gen_sym_facts w4 = SymErr ErrKey /\
+  (forall h, Resolved fsem_lib w4 (w4_env h) /\ SurrResolved fsem_lib w4 (w4_env h)) /\
+  (forall h, num_rhs fsem_lib w4 (w4_env h) 2%N - num_rhs fsem_lib w4 (w4_env 0) 2%N == h * (-2)) /\
+  (exists eqs, to_symbolic fsym_lib facts_merged_surr w4 = SymOk eqs /\
+     (exists e, In e eqs /\ In 6%N (syms e)) /\
+     (exists row d, nth_error (jacobian D eqs (m_vars w4)) 1 = Some row /\ nth_error row 0 = Some d /\
+                    eval (w4_env 0) d == 2) /\
+     call_closure facts_merged_surr w4 (init_jac fsym_lib D facts_merged_surr w4) 0 [1; 2] = CErr ErrName) /\
+  ~ (exists B, 0 <= B /\ forall h, Qabs h <= 1 ->
+       Qabs (num_rhs fsem_lib w4 (w4_env h) 2%N - num_rhs fsem_lib w4 (w4_env 0) 2%N - h * 2) <= B * (h * h)).
+Proof.
+  exact (conj eq_refl (conj w4_fresh (conj w4_uses_rxn (conj (proj1 w4_refused_now) (conj w4_resolved (conj w4_increment
+        (conj w4_merged w4_not_the_derivative))))))).
+Qed.
+Print Assumptions C12_surrogate_merged_table_refuted.
+
 (** ... and in the simulator a refused conversion leaves the integrator WITHOUT a Jacobian (after
     the warning) instead of using any equations. *)
 Theorem C12_fallback_without_jacobian :
@@ -236,8 +313,9 @@ Print Assumptions C12_fallback_without_jacobian.
 (** the hypotheses are satisfiable and the statements non-trivial: the concrete function table
     meets everything assumed of SymPy; w1 (derived values declared out of order) is convertible,
     resolved at a concrete environment, converts under the current facts to equations with the
-    values [-8; 8]; w3 has a STATE-dependent computed coefficient and converts to equations equal to
-    its right-hand side ([-6; 36]); the current closure evaluates w2's Jacobian to [[-2;0];[4;0]] *)
+    values [-8; 8]; w3 has a STATE-dependent computed coefficient, meets Convertible / OrderOk and converts
+    to equations equal to its right-hand side ([-6; 36]) (w4, a model with a surrogate, meets the
+    hypotheses of C12_surrogate_output_refused: see C12_surrogate_merged_table_refuted); the current closure evaluates w2's Jacobian to [[-2;0];[4;0]] *)
 Example C12_nonvacuous :
   (forall f es e env, fsym_lib f es = Some e -> eval env e == fsem_lib f (map (eval env) es)) /\
   (forall f vs ws, Forall2 Qeq vs ws -> fsem_lib f vs == fsem_lib f ws) /\
@@ -245,7 +323,7 @@ Example C12_nonvacuous :
   (forall x e, incl (syms (D x e)) (syms e)) /\
   Convertible fsym_lib w1 /\ OrderOk w1 /\ Resolved fsem_lib w1 w1_env /\
   (exists eqs, to_symbolic fsym_lib gen_sym_facts w1 = SymOk eqs /\ map (eval w1_env) eqs = [-8; 8]) /\
-  Resolved fsem_lib w3 w3_env /\
+  Resolved fsem_lib w3 w3_env /\ Convertible fsym_lib w3 /\ OrderOk w3 /\
   (m_dyn w3 = [(2%N, [(5%N, mkComp 24%N [1%N])])] /\
    exists eqs, to_symbolic fsym_lib gen_sym_facts w3 = SymOk eqs /\
      qlist_eqb (map (eval w3_env) eqs) (map (raw_rhs fsem_lib w3_env w3_raw) (m_vars w3)) = true /\
@@ -253,6 +331,6 @@ Example C12_nonvacuous :
   clo_obs_eqb (run_closure gen_sym_facts w2 0 [1; 1 # 2]) (ObsCloMat [[-2; 0]; [4; 0]]) = true.
 Proof.
   exact (conj fsym_lib_sound (conj fsem_lib_proper (conj fsym_lib_syms (conj D_syms_incl
-        (conj w1_convertible (conj w1_order_ok (conj w1_resolved (conj w1_converts (conj w3_resolved (conj w3_converts w2_now_closure)))))))))).
+        (conj w1_convertible (conj w1_order_ok (conj w1_resolved (conj w1_converts (conj w3_resolved (conj w3_convertible (conj w3_order_ok (conj w3_converts w2_now_closure)))))))))))).
 Qed.
 Print Assumptions C12_nonvacuous.
